@@ -294,6 +294,7 @@ impl Recorder {
                 }
             }
         }
+        start_watchdog(property.to_string(), args.clone());
         Recorder {
             property: property.into(),
             level: level.into(),
@@ -524,12 +525,101 @@ impl Recorder {
     }
 }
 
+// ---------------------------------------------------------------- hang watchdog (CPU time based)
+
+struct WatchSlot {
+    active: bool,
+    thread: libc::pthread_t,
+    cpu_at_start: f64,
+    stream: u64,
+    idx: u64,
+}
+
+static WATCH: std::sync::OnceLock<Vec<Mutex<WatchSlot>>> = std::sync::OnceLock::new();
+static WATCH_NEXT: AtomicU64 = AtomicU64::new(0);
+thread_local! {
+    static WATCH_MINE: usize = (WATCH_NEXT.fetch_add(1, Ordering::Relaxed) as usize) % 128;
+}
+
+fn watch_slots() -> &'static Vec<Mutex<WatchSlot>> {
+    WATCH.get_or_init(|| (0..128).map(|_| Mutex::new(WatchSlot { active: false, thread: 0, cpu_at_start: 0.0, stream: 0, idx: 0 })).collect())
+}
+
+fn cpu_of_thread(t: libc::pthread_t) -> Option<f64> {
+    let mut clock: libc::clockid_t = 0;
+    if unsafe { libc::pthread_getcpuclockid(t, &mut clock) } != 0 {
+        return None;
+    }
+    let mut ts = libc::timespec { tv_sec: 0, tv_nsec: 0 };
+    if unsafe { libc::clock_gettime(clock, &mut ts) } != 0 {
+        return None;
+    }
+    Some(ts.tv_sec as f64 + ts.tv_nsec as f64 * 1e-9)
+}
+
+pub struct CaseGuard;
+
+/// Mark the calling thread as working on case (stream, idx) until the guard is dropped
+pub fn case_guard(stream: u64, idx: u64) -> CaseGuard {
+    let k = WATCH_MINE.with(|k| *k);
+    let mut s = watch_slots()[k].lock().unwrap();
+    s.active = true;
+    s.thread = unsafe { libc::pthread_self() };
+    s.cpu_at_start = thread_cpu_s();
+    s.stream = stream;
+    s.idx = idx;
+    CaseGuard
+}
+
+impl Drop for CaseGuard {
+    fn drop(&mut self) {
+        let k = WATCH_MINE.with(|k| *k);
+        watch_slots()[k].lock().unwrap().active = false;
+    }
+}
+
+/// A case that burns more CPU time than this (orders of magnitude above any legitimate case) never returns: a hang.
+/// The verdict is based on the CPU time of the worker thread, not on wall time.
+fn start_watchdog(property: String, args: Args) {
+    static STARTED: std::sync::Once = std::sync::Once::new();
+    STARTED.call_once(|| {
+        let limit = args.extra_u64("case-cpu-limit", if args.thorough() { 900 } else { 240 }) as f64;
+        std::thread::spawn(move || loop {
+            std::thread::sleep(std::time::Duration::from_secs(5));
+            for s in watch_slots() {
+                let (stuck, stream, idx, used) = {
+                    let g = s.lock().unwrap();
+                    if !g.active {
+                        continue;
+                    }
+                    let used = cpu_of_thread(g.thread).map(|c| c - g.cpu_at_start).unwrap_or(0.0);
+                    (used > limit, g.stream, g.idx, used)
+                };
+                if stuck {
+                    let dir = format!("{VERIF_DIR}/replay/{property}");
+                    let _ = std::fs::create_dir_all(&dir);
+                    let path = format!("{dir}/hang_{}_{}_{}_{}.json", args.check, args.seed, stream, idx);
+                    let doc = json!({"property": property, "check": args.check, "build": args.build, "tier": args.tier, "seed": args.seed,
+                        "signature": {"kind": "hang", "site": format!("case stream {stream} index {idx}"), "discriminator": "cpu budget per case"},
+                        "detail": {"cpu_s_so_far": used, "limit_s": limit},
+                        "replay": {"how": format!("re-run `mon {} --tier {} --seed {}`: the case is generated from (seed, stream {stream}, index {idx})", args.check, args.tier, args.seed)}});
+                    let _ = std::fs::write(&path, serde_json::to_string_pretty(&doc).unwrap());
+                    println!("VIOLATION property={property} replay={path}");
+                    println!("  kind=hang site=case stream {stream} index {idx}: the case has used {used:.0} s of CPU time (limit {limit:.0} s) and has not returned");
+                    std::process::exit(1);
+                }
+            }
+        });
+    });
+}
+
 /// Run `n` cases on the rayon pool. Each case gets its own deterministic RNG; hook counters of
 /// the worker threads are absorbed into the recorder.
 pub fn par_cases(rec: &Recorder, stream: u64, n: u64, f: impl Fn(u64, &mut Rng) + Sync) {
     use rayon::prelude::*;
     (0..n).into_par_iter().for_each(|i| {
         let mut rng = Rng::for_case(rec.args.seed, stream, i);
+        let _g = case_guard(stream, i);
         f(i, &mut rng);
         rec.absorb_feats();
     });
